@@ -30,7 +30,7 @@ ASSUMPTIONS = [
 EXPLANATION = 'deviation-bounded (exactly one injected format violation) exhaustive exploration of the real readers'
 MANIFEST_TEXT = ('Every file of 2..3 (quick) / 2..4 (thorough) records for BED3/BED6/bedGraph/narrowPeak/VCF/SAM/FASTQ/two-line FASTA '
                  'with exactly one injected violation (missing record marker, missing "+", non-numeric text in a numeric column '
-                 '(letter, digit+32, punctuation), out-of-alphabet character in an encoded column, one column more / fewer) at '
+                 '(letter, digit+32, punctuation, a sign inside the number), out-of-alphabet character in an encoded column, one column more / fewer) at '
                  'every record position x every chunk size x lazy/eager x plain/gzip: the read must raise and never deliver a '
                  'table containing the bad record; a reported line_number must lie in the offending record and be identical '
                  'across all configurations.')
@@ -41,7 +41,8 @@ FMTS = ['bed3', 'bed6', 'bedgraph', 'narrowpeak', 'vcf_header', 'sam', 'fastq', 
 NUMERIC_COLS = {'bed3': [1, 2], 'bed6': [1, 2, 4], 'bedgraph': [1, 3], 'narrowpeak': [2, 6, 9], 'vcf_header': [1],
                 'sam': [1, 3, 8]}
 ENCODED_COLS = {'bed6': [5], 'narrowpeak': [5]}
-BAD_NUMERIC = {'letter': 'x', 'digit+32': '1P', 'punct': '1;2'}
+BAD_NUMERIC = {'letter': 'x', 'digit+32': '1P', 'punct': '1;2', 'inner-sign': '1-2'}
+SIGNED_COLS = {'bed6': [4], 'narrowpeak': [9], 'sam': [8]}      # columns whose well-formed values carry signs in the menu
 BAD_ENCODED = {'foreign-letter': 'x', 'letter+32-of-symbol': 'K'}
 
 
@@ -63,7 +64,8 @@ def violations_for(fmt, n, tier='thorough', seed=0):
             subs = list(BAD_NUMERIC)
             for ci, c in enumerate(NUMERIC_COLS[fmt]):
                 for si, sub in enumerate(subs):
-                    if tier == 'thorough' or sub == 'letter' or (ci + si + seed + p) % len(NUMERIC_COLS[fmt]) == 0:
+                    if tier == 'thorough' or sub == 'letter' or (ci + si + seed + p) % len(NUMERIC_COLS[fmt]) == 0 or \
+                            (sub == 'inner-sign' and c in SIGNED_COLS.get(fmt, [])):
                         yield ('non-numeric', sub, p, c)
             for c in ENCODED_COLS.get(fmt, []):
                 for sub in BAD_ENCODED:
